@@ -176,15 +176,16 @@ def src_resO(scratch):
 
 
 class MemEnv(Environment):
-    """Harness-made, perfectly re-readable source (classification only, never used for a verdict)."""
-    def __init__(self, blob): self._blob = blob
+    """Harness-made, perfectly re-readable source (classification only, never used for a verdict): every read
+    hands out what a FRESH upstream pipeline yields."""
+    def __init__(self, fresh): self._fresh = fresh
     @property
     def params(self): return {}
-    def read(self): return pickle.loads(self._blob)
+    def read(self): return self._fresh()
 
 
-def src_mem(blob):
-    return Built(MemEnv(blob))
+def src_mem(fresh):
+    return Built(MemEnv(fresh))
 
 
 # name -> (builder, label used in finding keys, static tags)
